@@ -2,10 +2,13 @@ package main
 
 import (
 	"fmt"
+	"os"
 	"sort"
 	"strings"
 
 	"github.com/casbin/casbin/v2"
+	fileadapter "github.com/casbin/casbin/v2/persist/file-adapter"
+	stringadapter "github.com/casbin/casbin/v2/persist/string-adapter"
 
 	"verif/harness/internal/mem"
 )
@@ -157,6 +160,58 @@ func c11RbacFaults(c *Ctx) {
 			}
 			if k == 1 && fmt.Sprint(a.Lines) != linesBefore {
 				c.Direct("the store changed although the first adapter call of the operation failed", what)
+			}
+		}
+	}
+}
+
+// c11RejectedTextReloads: reloads through the bundled file and string adapters from a text whose (k+1)-th line the
+// line reader itself rejects — an empty policy type, a rule one field short, an unbalanced quote — after k good
+// lines: the file adapter's LoadPolicy reports an error (whatever its wording) and rules, links and decisions are
+// what they were (the string adapter skips such lines by design: then there is nothing to check).
+// Implementation only; the error kinds are those of persist.LoadPolicyLine / LoadPolicyArray, not injected ones.
+func c11RejectedTextReloads(c *Ctx) {
+	good := "p, admin, data1, read\np, staff, data2, read\ng, alice, admin\ng, alice, staff\n"
+	fresh := []string{"p, root, data1, read", "g, bob, root", "p, bob, data2, read", "g, carol, admin"}
+	badLines := []string{", bob, data2, write", "p, bob, data2", "g, bob", "p, \"unbalanced, data1, read"}
+	for _, bad := range badLines {
+		for k := 0; k <= len(fresh); k++ {
+			text := strings.Join(append(append([]string(nil), fresh[:k]...), bad), "\n") + "\n" + strings.Join(fresh[k:], "\n") + "\n"
+			for _, kind := range []string{"file", "string"} {
+				ms := rbacSpec(false, false)
+				path := scratchFile() + ".c11text"
+				if err := os.WriteFile(path, []byte(good), 0o644); err != nil {
+					panic(err)
+				}
+				e, err := casbin.NewEnforcer(ms.Build(), fileadapter.NewAdapter(path))
+				if err != nil {
+					panic(err)
+				}
+				before := c11State(e, false)
+				if kind == "file" {
+					_ = os.WriteFile(path, []byte(text), 0o644)
+				} else {
+					e.SetAdapter(stringadapter.NewAdapter(text))
+				}
+				err = e.LoadPolicy()
+				after := c11State(e, false)
+				c.Evals++
+				c.Count("rejected_text_reloads", 1)
+				what := fmt.Sprintf("%s adapter, reload from a text whose line %d is %q (after %d good lines)", kind, k+1, bad, k)
+				if err == nil {
+					if kind == "string" {
+						// the string adapter skips the lines its reader rejects (it discards their errors): a load
+						// that succeeded is not this property's subject
+						c.Count("rejected_text_reloads_string_adapter_skipped_the_line", 1)
+						continue
+					}
+					c.Direct("a reload from a text with a line the reader rejects reported no error", fmt.Sprintf("%s\nstate afterwards: %s", what, after))
+					continue
+				}
+				c.Nontrivial("rejected-text|" + kind + "|" + bad + fmt.Sprint(k))
+				if before != after {
+					c.Direct("a rejected load changed the in-memory state", fmt.Sprintf("%s\nbefore: %s\nafter:  %s", what, before, after))
+				}
 			}
 		}
 	}
